@@ -5,6 +5,9 @@ VERIF = os.path.dirname(os.path.dirname(os.path.abspath(__file__)))
 
 CHECKS = {
     'C01': 'expect_family', 'C02': 'expect_family', 'C03': 'expect_family', 'C04': 'expect_family',
+    'C05': 'deadline', 'C06': 'transport', 'C07': 'codec', 'C08': 'sendlog', 'C11': 'sendlog',
+    'C09': 'lifecycle', 'C10': 'lifecycle', 'C12': 'run_check', 'C13': 'launch', 'C14': 'async_parity',
+    'C15': 'interact', 'C16': 'repl', 'C17': 'pxssh_check', 'C18': 'screen_ansi', 'C19': 'screen_ansi',
     'C20': 'c20',
 }
 
